@@ -50,7 +50,6 @@ from ..utils import (
     arg_value_error,
     arg_value_error_msg,
     arg_value_error_range,
-    cached,
     get_cell_size,
     get_fg_bg_colors,
     get_terminal_name_version,
@@ -1952,8 +1951,9 @@ class TextImage(BaseImage):
     _pixel_ratio = property(lambda _: get_cell_ratio() * 2)
 
     @staticmethod
-    @cached
     def _is_on_kitty() -> bool:
+        # Not cached here; `get_terminal_name_version()` is cached and its cache is
+        # invalidated by `term_image.enable_queries()`.
         return get_terminal_name_version()[0] == "kitty"
 
     @abstractmethod
